@@ -121,7 +121,7 @@ var c17CompileAlphabet = []COpt{
 	{Kind: "exp"}, {Kind: "perm"}, {Kind: "fn", Name: "fz", Fn: "badsig:firstparam"},
 }
 
-var badSigs = []string{"int", "string", "nil", "noparams", "firstparam", "oneresult", "secondresult", "firstresult", "threeresults", "noresults"}
+var badSigs = []string{"int", "string", "nil", "noparams", "firstparam", "oneresult", "secondresult", "firstresult", "threeresults", "noresults", "concreteerr"}
 
 // nthList returns the n-th list over an alphabet of size k in length-then-lexicographic order
 // (lists of length 0, then 1, ...); ok=false beyond maxLen.
